@@ -313,16 +313,18 @@ fn step<F: Flav>(regs: &mut [Option<F>; 4], o: &Op) -> (u8, Option<bool>) {
 fn step_inplace<F: Flav>(regs: &mut [Option<F>; 4], o: &Op) -> (u8, Option<bool>) {
     match o {
         Op::Set(r, i, v) => match regs[*r % 4].as_mut() {
-            Some(b) => match b.set_(*i, *v) {
-                Ok(()) => (0, None),
-                Err(()) => (1, None),
+            Some(b) => match catch(|| b.set_(*i, *v)) {
+                Caught::Val(Ok(())) => (0, None),
+                Caught::Val(Err(())) => (1, None),
+                Caught::Panic => (2, None),
             },
             None => (1, None),
         },
         Op::Shift(r, n) => match regs[*r % 4].as_mut() {
-            Some(b) => match b.shift_(*n) {
-                Ok(()) => (0, None),
-                Err(()) => (1, None),
+            Some(b) => match catch(|| b.shift_(*n)) {
+                Caught::Val(Ok(())) => (0, None),
+                Caught::Val(Err(())) => (1, None),
+                Caught::Panic => (2, None),
             },
             None => (1, None),
         },
